@@ -529,7 +529,7 @@ def build_all(run, audit_file, allow=()):
 
 def eval_model(run, tag, exprs):
     try:
-        return coqtools.coq_eval(tag, IMPORTS, exprs, shard=max(8, min(60, len(exprs) // 16 + 1)))
+        return coqtools.coq_eval(tag, IMPORTS, exprs, shard=max(30, min(400, len(exprs) // 6 + 1)))   # coqc start-up (library load) dominates: few shards
     except RuntimeError as e:
         run.tie_broken("model evaluation (coqc cases)", str(e))
         return [None] * len(exprs)
